@@ -231,6 +231,11 @@ def run(ctx):
     # a response is transmitted only for a request that is still tracked — at most one per request, none after a cancel or an expiry
     from .server_common import tracked_gate
     tracked_gate(ctx, 'C08.tracked', S)
+    # "a response is transmitted only if the handler finished before the request expired": in every activation of the request stream the deadline timers are polled
+    # (and expired entries forgotten) before any response is handed to the transport, so the tracked gate above also filters a request whose deadline has just
+    # passed (rule shared with C06.order; the limiter chains are known finding D5)
+    from .C06 import order_rule
+    order_rule(ctx, 'C08.order')
 
 
 class YieldAut:
